@@ -113,8 +113,9 @@ def representatives(T, limit=10):
                 add(lit)
         else:
             # strings with interior whitespace / markup / non-ASCII where the type allows them
-            for cand in ('a  b', 'x\ny', 'a&b<c>"d\'', 'p\tq', '\u00e9t\u00e9', '1'):
-                if L.valid_text(cand, False):
+            for cand in ('a  b', ' a ', 'x\ny', 'a&b<c>"d\'', 'p\tq', '\u00e9t\u00e9', '1', 'a b'):
+                # only strings that are already in the whitespace-normalised form of the type (the property speaks of that form)
+                if L.collapse(cand) == cand and L.valid_text(cand, False):
                     add(cand)
             if T.get('patterns') or T['kind'] == 'date':
                 for cand in lex.FIXED_CANDIDATES:
@@ -225,7 +226,9 @@ def attr_types(name):
     return out
 
 
-def same_text(a, b, T):
+def same_text(a, b, T, exact=False):
+    if exact and T is not None and T.get('kind') == 'string' and T.get('ws') == 'preserve':
+        return (a or '') == (b or '')          # attribute of a whitespace-preserving type: every character counts
     a = (a or '').strip()
     b = (b or '').strip()
     if a == b:
@@ -257,7 +260,7 @@ def diff_infoset(a, b, path=''):
     if set(ka) != set(kb):
         return '%s: attributes %s vs %s' % (here, sorted(ka), sorted(kb))
     for k in ka:
-        if not same_text(ka[k], kb[k], at.get(k)):
+        if not same_text(ka[k], kb[k], at.get(k), exact=True):
             return '%s/@%s: %r vs %r' % (here, k, ka[k], kb[k])
     if not same_text(a.text, b.text, elem_type(a.tag)):
         return '%s: text %r vs %r' % (here, a.text, b.text)
